@@ -743,11 +743,11 @@ func (n *Node) cbBroadcast(m dbft.ConsensusPayload[Hash]) {
 	p.sign(n.priv)
 	n.facts.addDelivered(p) // own payloads count as held by the node
 	n.out(Out{Kind: OBroadcast, P: p})
-	if n.kind == FAmnesia {
-		n.ownSent = append(n.ownSent, p)
-	}
 	if n.crashing {
-		return
+		return // the process died earlier in this call: this payload never left the node
+	}
+	if n.kind == FAmnesia {
+		n.ownSent = append(n.ownSent, p) // (only what really went out can be echoed back later)
 	}
 	n.s.send(n, p)
 }
